@@ -28,6 +28,19 @@ Fixpoint negotiate_rev (broker_max : Z) (rev_supported : list Z) {struct rev_sup
 Definition negotiate (broker_max : Z) (sorted_supported : list Z) : Z :=
   negotiate_rev broker_max (rev sorted_supported).
 
+(* the versions Conn can end up using per API (the lists handed to negotiateVersion, or the
+   fixed version of the request) *)
+Definition negotiated (a : api) (v : N) : bool :=
+  let among (l : list N) := existsb (N.eqb v) l in
+  match a with
+  | AProduce => among [2; 3; 7] | AFetch => among [2; 5; 10]
+  | AMetadata => among [1; 6] | AJoinGroup => among [1; 2]
+  | ACreateTopics => among [0; 1; 2] | ADeleteTopics | ASaslHandshake => among [0; 1]
+  | AListOffsets | ABrokers | AController | AOffsetFetch | AListGroups => among [1]
+  | AOffsetCommit => among [2]
+  | _ => among [0]
+  end%N.
+
 (* struct types as right-nested pairs *)
 Fixpoint tup (l : list ty) : ty :=
   match l with
@@ -111,7 +124,8 @@ Definition first_nonzero (l : list Z) : option Z := find (fun z => negb (z =? 0)
 Definition post_error (topic : list N) (a : api) (v : N) (r : val) : option Z :=
   let eqb_bytes (x y : list N) := if list_eq_dec N.eq_dec x y then true else false in
   match a with
-  | AFindCoordinator | ASyncGroup | AHeartbeat | ALeaveGroup | ASaslHandshake | ASaslAuthenticate =>
+  | AFindCoordinator | ASyncGroup | AHeartbeat | ALeaveGroup | ASaslHandshake | ASaslAuthenticate
+  | AApiVersions =>
       first_nonzero [zfield 0 r]
   | AJoinGroup => first_nonzero [zfield (if (2 <=? v)%N then 1 else 0)%nat r]
   | AListGroups => first_nonzero [zfield 1 r]
@@ -140,13 +154,13 @@ Definition produce_partition (v : N) : P val :=
   p <- read_ty (t_produce_part v) ;;
   if zfield 1 p =? 0 then ret (VL [field 0 p; field 2 p; field 3 p]) else fail (EKafka (zfield 1 p)).
 Definition produce_read (v : N) : P val :=
-  expectZeroSize (
+  expectZeroSize (skipRemainingOnKafkaError (
     ts <- readArrayWith (
       _ <- discardString ;;
       ps <- readArrayWith (produce_partition v) ;;
       _ <- discardInt32 ;;                 (* "the response is trailed by the throttle time" *)
       ret ps) ;;
-    ret (last_or (VL [VZ 0; VZ 0; VZ 0]) (concat ts))).
+    ret (last_or (VL [VZ 0; VZ 0; VZ 0]) (concat ts)))).
 
 (* ---- conn.go readOffset: list-offsets v1 ---- *)
 Definition listoffsets_read : P val :=
@@ -165,7 +179,7 @@ Definition expect_one (tag : N) : P unit :=
 Definition aborted_txs : P unit :=
   n <- readArrayLen ;;
   if n =? -1 then ret tt
-  else if n <? 0 then fail EPanic                       (* make([]AbortedTransaction, n) *)
+  else if n <? 0 then fail (EFmt 6)                     (* "invalid number of aborted transactions" *)
   else (_ <- rep (Z.to_nat n) (read_ty t_aborted) ;; ret tt).
 Definition check_msgset_size (declared : Z) : P unit :=
   remain <- get_sz ;; if remain =? declared then ret tt else fail (EFmt 3).
@@ -207,28 +221,50 @@ Definition msg_header : P Z :=
      _ <- readInt64 ;; _ <- readInt16 ;; _ <- readInt32 ;; _ <- readInt32 ;; ret magic)
   else fail (EFmt 4).
 
-(* ---- conn.go ApiVersions (does not go through Conn.do) ---- *)
+(* ---- conn.go ApiVersions: the read callback (no expectZeroSize); the error code is looked at
+   after Conn.do returned ---- *)
 Definition apiversions_read : P val :=
   e <- readInt16 ;;
   n <- readInt32 ;;
-  if n <? 0 then fail EPanic                            (* make([]ApiVersion, arrSize) *)
+  if n <? 0 then fail (EFmt 5)                          (* "invalid number of api versions" *)
   else
     l <- rep (Z.to_nat n) (read_ty (tup [TI16; TI16; TI16])) ;;
-    if e =? 0 then ret (VL l) else fail (EKafka e).
-
-(* the read callback handed to Conn.do for every operation but fetch and ApiVersions *)
-Definition op_read (a : api) (v : N) : P val :=
-  match a with
-  | AProduce => produce_read v
-  | AListOffsets => listoffsets_read
-  | _ => expectZeroSize (read_ty (resp_ty a v))
-  end.
+    ret (VP (VZ e) (VL l)).
 
 Definition is_kafka (e : err) : bool :=
-  match e with EKafka _ | ETimedOut => true | _ => false end.
+  match e with EKafka _ => true | _ => false end.
 Definition dontExpectEOF (e : err) : err := match e with EEOF => EUnexpEOF | _ => e end.
 (* checkTimeoutErr with no deadline elapsed: errShortRead becomes io.EOF *)
 Definition short_to_eof (e : err) : err := match e with EShort => EEOF | _ => e end.
+
+(* ---- conn.go ReadBatchWith after waitResponse, followed by Batch.Close without reading a
+   message, as one reader: header (the unread remainder is skipped when the broker reported an
+   error); highWaterMark = offset: the empty reader, the message set is discarded; otherwise
+   newMessageSetReader reads the first header and Batch.close discards what remains (its error
+   is now reported).  When the first message header fails the Batch carries that error and the
+   Conn is closed by Batch.close: what close's discard then consumes is not observable and is
+   left out. ---- *)
+Definition discard_remaining : P unit := remain <- get_sz ;; discardN remain.
+Definition fetch_read (v : N) (off : Z) : P val :=
+  h <- skipRemainingOnKafkaError (fetch_header v) ;;
+  let r := VL [VZ (fst h); VZ (snd h)] in
+  if snd h =? off then (_ <- discard_remaining ;; ret r)
+  else (_ <- msg_header ;; _ <- discard_remaining ;; ret r).
+
+(* the read callback handed to Conn.do (for fetch: see above) *)
+Definition op_read (a : api) (v : N) (off : Z) : P val :=
+  match a with
+  | AProduce => produce_read v
+  | AListOffsets => listoffsets_read
+  | AFetch => fetch_read v off
+  | AApiVersions => apiversions_read
+  | _ => expectZeroSize (read_ty (resp_ty a v))
+  end.
+
+(* how the error of the read phase reaches the caller: ReadBatchWith maps errShortRead through
+   checkTimeoutErr and io.EOF through dontExpectEOF; Conn.do returns it unchanged *)
+Definition map_err (a : api) (e : err) : err :=
+  match a with AFetch => dontExpectEOF (short_to_eof e) | _ => e end.
 
 (* ---- the connection ---- *)
 Record conn_state := mkConn {
@@ -266,61 +302,29 @@ Definition post (topic : list N) (a : api) (v : N) (r : val) : result :=
                | None => VP (VZ 0) (VP (VB []) (VP (VZ 0) (VB [])))    (* Broker{} *)
                end)
       | ABrokers => ROk (field 0 r)
+      | AApiVersions => ROk (field 1 r)
       | _ => ROk r
       end
   end.
 
-(* ReadBatchWith after waitResponse, then Batch.Close without reading a message:
-   result of Close, whether Close closes the connection, the stream left *)
-Definition fetch_after_wait (v : N) (off : Z) (size : Z) (s : list N) : result * bool * list N :=
-  match fetch_header v size s with
-  | (inr e, _, s1) =>
-      (* msgs = nil: Batch.close discards nothing *)
-      let e' := dontExpectEOF (short_to_eof e) in
-      (RErr e', negb (is_kafka e'), s1)
-  | (inl (throttle, hwm), remain, s1) =>
-      if hwm =? off then
-        (* msgs = &messageSetReader{empty: true}: discard() does nothing *)
-        (ROk (VL [VZ throttle; VZ hwm]), false, s1)
-      else
-        match msg_header remain s1 with
-        | (inr e, remain2, s2) =>
-            let e' := dontExpectEOF (short_to_eof e) in
-            let '(_, _, s3) := discardN remain2 remain2 s2 in     (* error ignored by close *)
-            (RErr e', negb (is_kafka e'), s3)
-        | (inl _, remain2, s2) =>
-            let '(_, _, s3) := discardN remain2 remain2 s2 in     (* error ignored by close *)
-            (ROk (VL [VZ throttle; VZ hwm]), false, s3)
-        end
-  end.
-
 (* one operation on the connection; [s] is what the peer sends from now on (end of list =
-   the peer closed).  Returns the new state, the result, and the unconsumed stream. *)
+   the peer closed).  Returns the new state, the result, and the unconsumed stream.
+   Conn.do / ReadBatchWith+Batch.close: a Kafka error keeps the connection, any other error
+   closes it. *)
 Definition conn_do (st : conn_state) (o : op) (s : list N) : conn_state * result * list N :=
   let id := wrap32 (corr st + 1) in
-  let off := match op_api o with AFetch => op_off o | _ => offset st end in
+  let a := op_api o in
+  let off := match a with AFetch => op_off o | _ => offset st end in
   let st1 := mkConn (closed st) id (cfg_topic st) off in
   if closed st then (st1, RErr EClosed, s)       (* doRequest: the write fails *)
   else
     match wait_response id s with
-    | (inr e, s', cl) =>
-        let e' := match op_api o with AFetch => dontExpectEOF e | _ => e end in
-        (set_closed st1 cl, RErr e', s')
+    | (inr e, s', cl) => (set_closed st1 cl, RErr (map_err a e), s')
     | (inl size, s', _) =>
-        match op_api o with
-        | AFetch =>
-            let '(r, cl, s'') := fetch_after_wait (op_ver o) off size s' in
-            (set_closed st1 cl, r, s'')
-        | AApiVersions =>
-            match apiversions_read size s' with
-            | (inl v, _, s'') => (st1, ROk v, s'')
-            | (inr e, _, s'') => (st1, RErr e, s'')      (* returns without closing *)
-            end
-        | a =>
-            match op_read a (op_ver o) size s' with
-            | (inl v, _, s'') => (st1, post (cfg_topic st) a (op_ver o) v, s'')
-            | (inr e, _, s'') => (set_closed st1 (negb (is_kafka e)), RErr e, s'')
-            end
+        match op_read a (op_ver o) off size s' with
+        | (inl v, _, s'') => (st1, post (cfg_topic st) a (op_ver o) v, s'')
+        | (inr e, _, s'') =>
+            (set_closed st1 (negb (is_kafka (map_err a e))), RErr (map_err a e), s'')
         end
     end.
 
